@@ -4,7 +4,7 @@ LE = "__CPROVER_loop_entry"
 PRNG = "repo:src/tinyjambu-prng.c"
 GEN = "tinyjambu_prng_generate"
 GEN_LOOP = {
-    "fn": GEN, "idx": 0, "line": r"while \(size > 0\)",
+    "fn": GEN, "idx": 0, "line": r"size > 0",
     "assigns": "data, size, len, carry, index, H, tjv_B, tjv_cb_calls, __CPROVER_object_whole(state), __CPROVER_object_whole(data)",
     "inv": ("size <= LE(size) && data == LE(data) + (LE(size) - size) && pstate->reseed_limit == LE(pstate->reseed_limit) && "
             "pstate->reseed_limit >= 1 && pstate->reseed_limit <= 32768 && pstate->reseed_counter >= 1 && tjv_B <= pstate->reseed_counter - 1 && "
